@@ -731,6 +731,13 @@ def run(ctx):
             for alg in chosen:
                 emit(dict(kind='cksum', size=size, cseed=seed, cs=cs, alg=alg))
 
+    # files and chunk sizes beyond 1 MiB (both tiers): chunk larger than a MiB with a file larger than a MiB, chunk
+    # larger than the file, chunk == size, chunk == size +- 1
+    for size in ((1 << 20) + 1, (1 << 20) + 4097, 3 * (1 << 20) + 5):
+        seed = rs.getrandbits(32)
+        for cs in ((1 << 20) + 1, 1 << 21, size, size - 1, size + 1, 1 << 24, (1 << 20) - 1):
+            emit(dict(kind='cksum', size=size, cseed=seed, cs=cs, alg=algs[(size + cs) % len(algs)]))
+
     # ---- 3. last_bytes -------------------------------------------------
     for size in sizes:
         seed = rs.getrandbits(32)
